@@ -130,48 +130,11 @@ def r3(ctx):
 
 
 def r4(ctx):
-    """standard output: every write either stops on a closed pipe or ignores the result"""
-    n = 0
-    for fn in (LSR, CHECK_FILE):
-        hir = ctx.anchor_hir(fn)
-        for c in walk_exprs(hir):
-            is_out = (c["k"] == "MCall" and c["m"] in ("write_fmt", "write_header", "write_footer", "write_row_separator") and "stdout" in render(c))
-            if not is_out:
-                continue
-            n += 1
-            chain = path_to(hir, c)
-            verdict = None
-            for anc, key in reversed(chain):
-                if anc["k"] == "If" and key == "c" and peel(anc["c"], methods=False)["k"] == "LetE":
-                    le = peel(anc["c"], methods=False)
-                    if render_pat(le["pat"]).startswith("Result::Err"):
-                        t = render(anc["t"])
-                        has_pipe = "BrokenPipe" in t
-                        stops = any(y["k"] == "Ret" for y in walk_exprs(anc["t"]))
-                        verdict = "pipe-stop" if has_pipe and stops else "err-branch-without-stop"
-                        break
-                if anc["k"] == "Match" and anc.get("src") == "Normal" and key == "scrut":
-                    # `match write(..) { Err(e) if e.kind() == BrokenPipe => return Ok(()), _ => {} }`
-                    for a_ in anc["arms"]:
-                        if "Result::Err" in render_pat(a_["pat"]):
-                            txt = render(a_.get("guard")) + render(a_["body"]) if a_.get("guard") is not None else render(a_["body"])
-                            has_pipe = "BrokenPipe" in txt
-                            stops = any(y["k"] == "Ret" for y in walk_exprs(a_["body"])) or a_["body"]["k"] == "Ret"
-                            verdict = "pipe-stop" if has_pipe and stops else "err-branch-without-stop"
-                    if verdict:
-                        break
-                if anc["k"] == "Let" and anc["pat"]["k"] == "Wild":
-                    verdict = "ignored"
-                    break
-                if anc["k"] == "Match" and str(anc.get("src", "")).startswith("TryDesugar"):
-                    verdict = "propagated"
-                    break
-            ok = verdict in ("pipe-stop", "ignored", "propagated")
-            ctx.obligation(ok)
-            if not ok:
-                ctx.violation("stdout/%s/%s" % (short(fn, 1), c["m"]), ctx.where(fn, c), "the result of writing to standard output is %s" % (verdict or "used in another way"))
-    ctx.covered("writes to standard output in the search path (closed-pipe handling)", n, distinct_keys=["writes:%d" % n])
-    ctx.floor(n, 6, "stdout writes in list_search_results / check_file", LSR)
+    """standard output: a closed or failing standard output never panics and ends in a stop or a propagated error.  Decided
+    by evaluation: check_file on its scenario table (X-PIPELINE: closed output -> Ok(false)), the output phase of
+    list_search_results with each of its writes failing in turn (rules/lsr.py), and exec_search's status table"""
+    import lsr
+    lsr.output_phase(ctx)
     # a propagated error reaches exec_search, which treats BrokenPipe as a normal stop
     tbl, _why = c10.exec_search_table(ctx)
     ok = tbl is not None and all(tbl[(True, "pipe", c)][0] == (0 if c == 0 else 1) and "PANIC" not in tbl[(True, "pipe", c)][1] for c in (0, 1, 5)) and \
